@@ -21,6 +21,20 @@ def main():
     out = []
     prog_path = payload.get('progress')
     partial_path = payload.get('partial')
+    if payload['kind'] == 'labels':
+        from tenpy.linalg.np_conserved import Array
+        for case in payload['programs']:
+            ls = case['labels']
+            r = {'combined': Array._combine_leg_labels(ls), 'conj': [Array._conj_leg_label(l) for l in ls]}
+            try:
+                r['split'] = Array._split_leg_label(r['combined'], case.get('count', len(ls)))
+            except ValueError:
+                r['split'] = 'ValueError'
+            r['conj_combined'] = Array._conj_leg_label(r['combined'])
+            r['conj_conj'] = [Array._conj_leg_label(x) for x in r['conj']]
+            out.append(r)
+        json.dump({'info': info, 'results': out}, open(sys.argv[2], 'w'))
+        return
     for pi, prog in enumerate(payload['programs']):
         try:
             if payload['kind'] == 'legs':
